@@ -22,6 +22,8 @@ func Check(data []byte) error {
 		// the library only writes UTF-8; an encoding declaration other than UTF-8 is not handled here
 		return fmt.Errorf("invalid UTF-8")
 	}
+	// a leading UTF-8 byte order mark is allowed (XML 1.0 4.3.3); encoding/xml would read it as character data
+	data = bytes.TrimPrefix(data, []byte("\xef\xbb\xbf"))
 	if err := rawAttrScan(data); err != nil {
 		return err
 	}
@@ -215,7 +217,7 @@ func SelfTest() error {
 		}
 	}
 	good := []string{
-		`<a/>`, `<?xml version="1.0" encoding="UTF-8"?><a xmlns:p="u"><p:b p:c="1">x &amp; y &#x4e2d;</p:b></a>`,
+		"\xef\xbb\xbf<a/>", `<a/>`, `<?xml version="1.0" encoding="UTF-8"?><a xmlns:p="u"><p:b p:c="1">x &amp; y &#x4e2d;</p:b></a>`,
 		"<a>\t\n\r é 中 😀</a>", `<a b="&lt;"/>`, `<a><![CDATA[<x>]]></a>`, `<!-- c --><a/><!-- d -->`,
 		`<a xmlns="u"><b xml:space="preserve"> </b></a>`, `<a b='"'/>`,
 	}
